@@ -416,6 +416,22 @@ func c13Run(t *rapid.T) {
 			hist = append(hist, fmt.Sprintf("CacheEnabled = %v", cacheOn))
 			count("c13_op_setcache", 1)
 		case 1:
+			if uni(t, "crowd", 3) == 0 {
+				// crowd the cache with many other templates (bounded caches, eviction)
+				n := []int{10, 20, 70, 300}[uni(t, "crowdn", 4)]
+				was := plush.CacheEnabled
+				plush.CacheEnabled = true
+				for x := 0; x < n; x++ {
+					txt := fmt.Sprintf("filler %d <%%= %d %%>", x, x)
+					if out, err := safeRender(txt, plush.NewContext()); err != nil || out != fmt.Sprintf("filler %d %d", x, x) {
+						violate(t, "C13", "same-template-same-data-same-result", "c13:result-differs:filler", det(fmt.Sprintf("filler template %q rendered %q, %v", txt, out, err)))
+					}
+				}
+				plush.CacheEnabled = was
+				hist = append(hist, fmt.Sprintf("render %d distinct filler templates with the cache on", n))
+				count("c13_op_crowd_cache", 1)
+				break
+			}
 			plush.VerifResetCache()
 			hist = append(hist, "reset cache (cold)")
 			count("c13_op_resetcache", 1)
@@ -448,6 +464,10 @@ func c13Run(t *rapid.T) {
 			}
 			track(tm, i, "Parse")
 			n := rapid.IntRange(1, 3).Draw(t, "nexec")
+			if uni(t, "hot", 12) == 0 {
+				n = []int{5, 12, 110}[uni(t, "hotn", 3)] // a "hot" template
+				count("c13_hot_templates", 1)
+			}
 			for x := 0; x < n; x++ {
 				rt := newRT(i, j)
 				out, err := safeExec(tm, plush.NewContextWith(rt.contextData()))
